@@ -1043,26 +1043,26 @@ ANestedARet ==
 
 ---------------------------------------------------------------------------
 (* Pratt parsing (src/pratt.rs, Pratt::pratt_go).  g = <<"pratt", atom, ops, table>>, ops a     *)
-(* sequence of <<fix, bp, sym>> with fix in {"prefix", "postfix", "infixl", "infixr"}; every   *)
-(* operator parser is just(sym).  One frame per pratt_go invocation: n = min_power,            *)
-(* cp = pre_expr, cp2 = pre_op, acc = <<lhs>>, k = index of the operator being tried.          *)
-(*   pc 10 prefix scan   1 prefix operand   2 atom   20 postfix scan   21 infix scan           *)
-(*   3 infix operand                                                                           *)
-(* Operators are tried in declaration order; an operator whose own parser or operand fails     *)
-(* rewinds (to pre_expr resp. pre_op) and the next one is tried.                               *)
+(* sequence of <<fix, bp, opg>> with fix in {"prefix", "postfix", "infixl", "infixr"} and opg   *)
+(* the operator's own parser (any grammar: just(sym), a multi-token symbol, a choice of          *)
+(* symbols, a parser that emits).  One frame per pratt_go invocation: n = min_power,             *)
+(* cp = pre_expr, cp2 = pre_op, acc = <<lhs>> (<<lhs, op>> while an operand is parsed),          *)
+(* k = index of the operator being tried.                                                        *)
+(*   pc 10 prefix scan   11 prefix operator parser   1 prefix operand   2 atom                   *)
+(*   20 postfix scan     22 postfix operator parser                                              *)
+(*   21 infix scan       23 infix operator parser    3 infix operand                             *)
+(* Operators are tried in declaration order; the operator parser runs in the caller's mode; an  *)
+(* operator whose own parser or operand fails rewinds (prefix: to pre_expr, postfix / infix: to  *)
+(* pre_op) -- which also discards what the operator parser emitted -- and the next one is tried. *)
 
 PLeftPow(op) == IF op[1] = "infixr" THEN 2 * op[2] + 1 ELSE 2 * op[2]        \* Associativity::left_power
 PRightPow(op) == IF op[1] = "infixr" THEN 2 * op[2] ELSE 2 * op[2] + 1       \* Associativity::right_power
 POps(f) == f.g[3]
 (* the fold callbacks also see the span of the sub-expression built so far (C07) *)
 PFold(f, v, endc) == LET sp == SpanOf(f.cp.cur, endc) IN VW(v, sp[1], sp[2], f.ctx, insp)
-(* just(sym) failing at the cursor: add_alt([sym], found, span) *)
-OpMiss(a, sym) ==
-  LET t == TokAt(cur)
-      sp == SpanOf(cur, IF t = "" THEN cur ELSE cur + 1)
-  IN AddAlt(Ety, a, cur, {"t:" \o sym}, t, sp[1], sp[2])
 
 PrattEntering == /\ ~st.done /\ stack # <<>> /\ ~ret.set /\ Op(Top.g) = "pratt"
+PrattResuming(pc) == /\ ~st.done /\ stack # <<>> /\ ret.set /\ Op(Top.g) = "pratt" /\ Top.pc = pc
 PrattCall(f2, minp, ncur, ninsp, nalt) ==      \* the operand: a recursive pratt_go on the same node
   /\ CallX(f2, f2.g, f2.mode, f2.ctx, f2.env, f2.path, "pratt", minp, ncur, sec, ninsp, nalt)
   /\ UNCHANGED <<cid, memo, kf, obs, result>>
@@ -1070,6 +1070,14 @@ PrattStay(f2, nalt) ==                          \* bookkeeping step inside the f
   /\ stack' = [stack EXCEPT ![Len(stack)] = f2]
   /\ alt' = nalt /\ ret' = NoRet /\ Tick
   /\ UNCHANGED <<cid, cur, sec, insp, memo, kf, obs, result>>
+(* stay in the frame, rewinding the input to checkpoint cp (InputRef::rewind) *)
+PrattRewind(f2, cp) ==
+  /\ stack' = [stack EXCEPT ![Len(stack)] = f2]
+  /\ cur' = cp.cur /\ sec' = RwSec(cp) /\ insp' = cp.insp
+  /\ ret' = NoRet /\ Tick
+  /\ UNCHANGED <<cid, alt, memo, kf, obs, result>>
+(* the k-th operator's own parser, as child 10 + k of the node *)
+PrattOpCall(f2, k) == Call(f2, 10 + k, POps(f2)[k][3], f2.mode, cur, sec, insp, alt)
 
 APrattStart ==
   /\ PrattEntering /\ Top.pc = 0
@@ -1081,30 +1089,32 @@ APrattPrefixScan ==
          k == f.k
      IN IF k > Len(POps(f))
         THEN Call([f EXCEPT !.pc = 2], 1, f.g[2], f.mode, cur, sec, insp, alt)               \* no prefix operator: the atom
-        ELSE LET op == POps(f)[k] IN
-             IF op[1] # "prefix" THEN PrattStay([f EXCEPT !.k = k + 1], alt)
-             ELSE IF TokAt(cur) = op[3]
-                  THEN PrattCall([f EXCEPT !.pc = 1], 2 * op[2], cur + 1, insp + 1, alt)
-                  ELSE PrattStay([f EXCEPT !.k = k + 1], OpMiss(alt, op[3]))
+        ELSE IF POps(f)[k][1] # "prefix" THEN PrattStay([f EXCEPT !.k = k + 1], alt)
+        ELSE PrattOpCall([f EXCEPT !.pc = 11], k)
 
-APrattPrefixRet ==
-  /\ ~st.done /\ stack # <<>> /\ ret.set /\ Op(Top.g) = "pratt" /\ Top.pc = 1
+(* Prefix::do_parse_prefix: op_parser.go::<M>; Ok -> the operand with min power 2 * bp; Err -> rewind(pre_expr) *)
+APrattPrefixOpRet ==
+  /\ PrattResuming(11)
   /\ LET f == Top
          op == POps(f)[f.k]
      IN IF ret.ok
-        THEN /\ stack' = [stack EXCEPT ![Len(stack)] =
-                            [f EXCEPT !.pc = 20, !.k = 1, !.cp2 = Cp(cur, Len(sec), insp),
-                                      !.acc = <<MV(f.mode, PFold(f, VF("pre", VS(<<op[3]>>), ret.val), cur))>>]]
-             /\ ret' = NoRet /\ Tick
-             /\ UNCHANGED <<cid, cur, alt, sec, insp, memo, kf, obs, result>>
-        ELSE \* the operand failed: rewind(pre_expr) and try the next operator
-             /\ stack' = [stack EXCEPT ![Len(stack)] = [f EXCEPT !.pc = 10, !.k = f.k + 1]]
-             /\ cur' = f.cp.cur /\ sec' = RwSec(f.cp) /\ insp' = f.cp.insp
-             /\ ret' = NoRet /\ Tick
-             /\ UNCHANGED <<cid, alt, memo, kf, obs, result>>
+        THEN PrattCall([f EXCEPT !.pc = 1, !.acc = <<VU, ret.val>>], 2 * op[2], cur, insp, alt)
+        ELSE PrattRewind([f EXCEPT !.pc = 10, !.k = f.k + 1], f.cp)
+
+APrattPrefixRet ==
+  /\ PrattResuming(1)
+  /\ LET f == Top IN
+     IF ret.ok
+     THEN /\ stack' = [stack EXCEPT ![Len(stack)] =
+                         [f EXCEPT !.pc = 20, !.k = 1, !.cp2 = Cp(cur, Len(sec), insp),
+                                   !.acc = <<MV(f.mode, PFold(f, VF("pre", f.acc[2], ret.val), cur))>>]]
+          /\ ret' = NoRet /\ Tick
+          /\ UNCHANGED <<cid, cur, alt, sec, insp, memo, kf, obs, result>>
+     ELSE \* the operand failed: rewind(pre_expr) and try the next operator
+          PrattRewind([f EXCEPT !.pc = 10, !.k = f.k + 1], f.cp)
 
 APrattAtomRet ==
-  /\ ~st.done /\ stack # <<>> /\ ret.set /\ Op(Top.g) = "pratt" /\ Top.pc = 2
+  /\ PrattResuming(2)
   /\ LET f == Top IN
      IF ~ret.ok THEN Keep(ErrRet)
      ELSE /\ stack' = [stack EXCEPT ![Len(stack)] =
@@ -1119,16 +1129,19 @@ APrattPostfixScan ==
      IN IF k > Len(POps(f)) THEN PrattStay([f EXCEPT !.pc = 21, !.k = 1], alt)
         ELSE LET op == POps(f)[k] IN
              IF op[1] # "postfix" \/ 2 * op[2] + 1 < f.n THEN PrattStay([f EXCEPT !.k = k + 1], alt)
-             ELSE IF TokAt(cur) = op[3]
-                  THEN \* consumed: fold and go round the loop (a new pre_op)
-                       /\ stack' = [stack EXCEPT ![Len(stack)] =
-                                      [f EXCEPT !.k = 1, !.cp2 = Cp(cur + 1, Len(sec), insp + 1),
-                                                !.acc = <<MV(f.mode, LET sp == SpanOf(f.cp.cur, cur + 1) IN
-                                                                      VW(VF("post", f.acc[1], VS(<<op[3]>>)), sp[1], sp[2], f.ctx, insp + 1))>>]]
-                       /\ cur' = cur + 1 /\ insp' = insp + 1
-                       /\ ret' = NoRet /\ Tick
-                       /\ UNCHANGED <<cid, alt, sec, memo, kf, obs, result>>
-                  ELSE PrattStay([f EXCEPT !.k = k + 1], OpMiss(alt, op[3]))
+             ELSE PrattOpCall([f EXCEPT !.pc = 22], k)
+
+(* Postfix::do_parse_postfix: Ok -> fold and go round the loop (a new pre_op); Err -> rewind(pre_op) *)
+APrattPostfixOpRet ==
+  /\ PrattResuming(22)
+  /\ LET f == Top IN
+     IF ret.ok
+     THEN /\ stack' = [stack EXCEPT ![Len(stack)] =
+                         [f EXCEPT !.pc = 20, !.k = 1, !.cp2 = Cp(cur, Len(sec), insp),
+                                   !.acc = <<MV(f.mode, PFold(f, VF("post", f.acc[1], ret.val), cur))>>]]
+          /\ ret' = NoRet /\ Tick
+          /\ UNCHANGED <<cid, cur, alt, sec, insp, memo, kf, obs, result>>
+     ELSE PrattRewind([f EXCEPT !.pc = 20, !.k = f.k + 1], f.cp2)
 
 APrattInfixScan ==
   /\ PrattEntering /\ Top.pc = 21
@@ -1139,25 +1152,28 @@ APrattInfixScan ==
              Return(OkRet(f.acc[1]), f.cp2.cur, RwSec(f.cp2), f.cp2.insp, alt)
         ELSE LET op == POps(f)[k] IN
              IF op[1] \notin {"infixl", "infixr"} \/ PLeftPow(op) < f.n THEN PrattStay([f EXCEPT !.k = k + 1], alt)
-             ELSE IF TokAt(cur) = op[3]
-                  THEN PrattCall([f EXCEPT !.pc = 3], PRightPow(op), cur + 1, insp + 1, alt)
-                  ELSE PrattStay([f EXCEPT !.k = k + 1], OpMiss(alt, op[3]))
+             ELSE PrattOpCall([f EXCEPT !.pc = 23], k)
 
-APrattInfixRet ==
-  /\ ~st.done /\ stack # <<>> /\ ret.set /\ Op(Top.g) = "pratt" /\ Top.pc = 3
+(* Infix::do_parse_infix: Ok -> the right operand with the operator's right power; Err -> rewind(pre_op) *)
+APrattInfixOpRet ==
+  /\ PrattResuming(23)
   /\ LET f == Top
          op == POps(f)[f.k]
      IN IF ret.ok
-        THEN /\ stack' = [stack EXCEPT ![Len(stack)] =
-                            [f EXCEPT !.pc = 20, !.k = 1, !.cp2 = Cp(cur, Len(sec), insp),
-                                      !.acc = <<MV(f.mode, PFold(f, VF("in", VP(f.acc[1], VS(<<op[3]>>)), ret.val), cur))>>]]
-             /\ ret' = NoRet /\ Tick
-             /\ UNCHANGED <<cid, cur, alt, sec, insp, memo, kf, obs, result>>
-        ELSE \* no right operand: rewind(pre_op), the operator stays unconsumed; try the next one
-             /\ stack' = [stack EXCEPT ![Len(stack)] = [f EXCEPT !.pc = 21, !.k = f.k + 1]]
-             /\ cur' = f.cp2.cur /\ sec' = RwSec(f.cp2) /\ insp' = f.cp2.insp
-             /\ ret' = NoRet /\ Tick
-             /\ UNCHANGED <<cid, alt, memo, kf, obs, result>>
+        THEN PrattCall([f EXCEPT !.pc = 3, !.acc = <<f.acc[1], ret.val>>], PRightPow(op), cur, insp, alt)
+        ELSE PrattRewind([f EXCEPT !.pc = 21, !.k = f.k + 1], f.cp2)
+
+APrattInfixRet ==
+  /\ PrattResuming(3)
+  /\ LET f == Top IN
+     IF ret.ok
+     THEN /\ stack' = [stack EXCEPT ![Len(stack)] =
+                         [f EXCEPT !.pc = 20, !.k = 1, !.cp2 = Cp(cur, Len(sec), insp),
+                                   !.acc = <<MV(f.mode, PFold(f, VF("in", VP(f.acc[1], f.acc[2]), ret.val), cur))>>]]
+          /\ ret' = NoRet /\ Tick
+          /\ UNCHANGED <<cid, cur, alt, sec, insp, memo, kf, obs, result>>
+     ELSE \* no right operand: rewind(pre_op), the operator stays unconsumed; try the next one
+          PrattRewind([f EXCEPT !.pc = 21, !.k = f.k + 1, !.acc = <<f.acc[1]>>], f.cp2)
 
 ---------------------------------------------------------------------------
 (* Top level: Parser::parse / Parser::check (src/lib.rs:356-427)           *)
@@ -1229,6 +1245,7 @@ CoreNext ==
   \/ ANestedStart \/ ANestedBRet \/ ANestedARet
   \/ ATextStart \/ ATPaddedStart \/ ATPaddedRet \/ AExtSubStart \/ AExtSubRet
   \/ AWithCtxStart \/ AThenCtxStart \/ AThenCtxARet \/ AThenCtxBRet \/ AWithStateStart \/ AWithStateRet
-  \/ APrattStart \/ APrattPrefixScan \/ APrattPrefixRet \/ APrattAtomRet \/ APrattPostfixScan \/ APrattInfixScan \/ APrattInfixRet
+  \/ APrattStart \/ APrattPrefixScan \/ APrattPrefixOpRet \/ APrattPrefixRet \/ APrattAtomRet
+  \/ APrattPostfixScan \/ APrattPostfixOpRet \/ APrattInfixScan \/ APrattInfixOpRet \/ APrattInfixRet
   \/ Finish \/ ANextParse
 =============================================================================
